@@ -21,7 +21,7 @@ class C19(SpanProp):
     files = ['tephra-span/src/metrics.rs', 'tephra-span/src/source.rs']
     rule = ('exhaustive small texts over the 11-symbol alphabet x line endings x tab widths, plus seeded random texts up to '
             '40 chars; per text every canonical base through every navigation function of ColumnMetrics and of the '
-            'SourceText wrappers, every pattern of a fixed pattern set plus random patterns, five character classes; '
+            'SourceText wrappers, every pattern of a fixed pattern set plus random patterns, seven character classes (two of them telling the CR and the LF of a CRLF ending apart); '
             'non-trivial = text with a tab, a wide/zero-width/multi-byte char or a line break and >= 3 positions; '
             'distinct by (text, metrics)')
     exhaustive = {'quick': False, 'thorough': False}
@@ -33,7 +33,7 @@ class C19(SpanProp):
         def add(le, tab, t, pats):
             n[0] += 1
             out.append(spangen.span_case('c%d' % n[0], le, tab, t, ['nav', 'pat', 'cls'], pats,
-                                         ['alpha', 'space', 'any', 'nl', 'wide']))
+                                         ['alpha', 'space', 'any', 'nl', 'wide', 'cr', 'notlf']))
         if tier == 'quick':
             for le in ('lf', 'cr', 'crlf'):
                 for t in spangen.all_texts(SMALL, 3):
